@@ -145,6 +145,46 @@ def check_doc(c, sc, d, pools, res):
                 clause = "c18.node-split-or-merged" if why.startswith("the node was split") else "c18.outside-changed"
                 res.violate(clause, {**base, "op": op, "isolating_node_at": o}, why + " :: " + jkey(tr.doc.to_json())[:300],
                             fingerprint=clause + ":" + op["op"], size=n)
+        # the same deletions as the SECOND operation of a Transform whose first step moved the isolating node
+        # (positions are those of the current document, not of the document the Transform started from)
+        if "paragraph" in c.schema.nodes:
+            firsts = [("insert(0, paragraph)", lambda tr: tr.insert(0, c.schema.nodes["paragraph"].create()))]
+            if o > 0:
+                firsts.append((f"delete(0, {o})", lambda tr: tr.delete(0, o)))
+            for fname, first in firsts:
+                tr0 = adapters.Transform(node)
+                try:
+                    first(tr0)
+                except Exception:  # noqa: BLE001
+                    continue
+                Tm = tk.doc_tokens(model, tr0.doc.to_json())
+                shift = len(Tm) - n
+                o2, cl2 = o + shift, cl + shift
+                if not (0 <= o2 < len(Tm)) or Tm[o2] != T[o]:
+                    continue
+                for a in range(o2 + 1, cl2 + 1):
+                    for b in range(a, cl2 + 1):
+                        for opname in ("delete_range", "replace_range(empty)"):
+                            tr = adapters.Transform(node)
+                            first(tr)
+                            res.transitions += 1
+                            try:
+                                if opname == "delete_range":
+                                    tr.delete_range(a, b)
+                                else:
+                                    tr.replace_range(a, b, adapters.Slice.empty)
+                            except ValueError:
+                                continue
+                            except Exception:  # noqa: BLE001
+                                res.clause("c18.history.internal-error(reported by C11)")
+                                continue
+                            T1 = tk.doc_tokens(model, tr.doc.to_json())
+                            res.validated += 1
+                            why = check_confined(model, Tm, T1, o2, cl2)
+                            if why:
+                                res.violate("c18.history.leaked", {**base, "first": fname, "op": {"op": opname, "from": a, "to": b},
+                                                                   "isolating_node_at": o}, why + " :: " + jkey(tr.doc.to_json())[:300],
+                                            fingerprint="c18.history.leaked:" + opname, size=n)
         # lift targets and splits inside
         seen = set()
         seen_br = set()
